@@ -21,8 +21,8 @@ PID = "C02"
 TRANSLATORS = ["T-jumpi", "T-consts", "T-branchpts", "T-assertbranch"]
 
 OPTIONS = [{}, {"solver_timeout_branching": 0}, {"solver_timeout_branching": 10000}, {"loop": 1}, {"loop": 3}, {"solver_timeout_branching": 10000, "loop": 1}]
-PLAN_QUICK = [("branch", 18), ("memory", 6), ("storage", 10), ("hash", 8), ("loop", 12), ("call", 10), ("create", 6), ("symtarget", 24), ("valuecall", 18), ("callfail", 8), ("corr", 24), ("symloop", 10), ("hashcond", 16), ("symstore", 16)]
-PLAN_THOROUGH = [("straight", 60), ("branch", 240), ("memory", 80), ("storage", 120), ("hash", 120), ("loop", 160), ("call", 160), ("create", 80), ("symtarget", 300), ("valuecall", 240), ("callfail", 100), ("corr", 300), ("symloop", 150), ("hashcond", 200), ("symstore", 200)]
+PLAN_QUICK = [("branch", 18), ("memory", 6), ("storage", 10), ("hash", 8), ("loop", 12), ("call", 10), ("create", 6), ("symtarget", 24), ("valuecall", 18), ("callfail", 8), ("corr", 24), ("symloop", 10), ("hashcond", 16), ("symstore", 16), ("create2", 8)]
+PLAN_THOROUGH = [("straight", 60), ("branch", 240), ("memory", 80), ("storage", 120), ("hash", 120), ("loop", 160), ("call", 160), ("create", 80), ("symtarget", 300), ("valuecall", 240), ("callfail", 100), ("corr", 300), ("symloop", 150), ("hashcond", 200), ("symstore", 200), ("create2", 120)]
 
 
 def run(rep, tier):
